@@ -1312,15 +1312,16 @@ class MeshRegion:
                     + curl_bOverB_Zhat(self.Rxy, self.Zxy) * BZ(self.Rxy, self.Zxy)
                 ) / (self.Bpxy * self.hy)
             else:
-                # Grad(y) = (d_Z, 0, -d_R)/(hy*cosBeta)
-                #         = (BR*cosBeta-BZ*sinBeta, 0, BZ*cosBeta+BR*sinBeta)
+                # Grad(y) is perpendicular to e_x (which makes an angle beta with
+                # Grad(psi), see calcBeta()) and has Grad(y).e_y = 1:
+                # Grad(y) = (BR*cosBeta+BZ*sinBeta, 0, BZ*cosBeta-BR*sinBeta)
                 #           /(Bp*hy*cosBeta)
-                #         = (BR-BZ*tanBeta, 0, BZ+BR*tanBeta)/(Bp*hy)
+                #         = (BR+BZ*tanBeta, 0, BZ-BR*tanBeta)/(Bp*hy)
                 self.curl_bOverB_y = (
                     curl_bOverB_Rhat(self.Rxy, self.Zxy)
-                    * (BR(self.Rxy, self.Zxy) - BZ(self.Rxy, self.Zxy) * self.tanBeta)
+                    * (BR(self.Rxy, self.Zxy) + BZ(self.Rxy, self.Zxy) * self.tanBeta)
                     + curl_bOverB_Zhat(self.Rxy, self.Zxy)
-                    * (BZ(self.Rxy, self.Zxy) + BR(self.Rxy, self.Zxy) * self.tanBeta)
+                    * (BZ(self.Rxy, self.Zxy) - BR(self.Rxy, self.Zxy) * self.tanBeta)
                 ) / (self.Bpxy * self.hy)
 
             # Grad(z) = Grad(zeta) - Bt*hy/(Bp*R)*Grad(y) - I*Grad(x)
